@@ -46,7 +46,9 @@ def main(argv=None):
         prop = props.load(pid)
         freeze_heap()
         for (campaign, _, _) in prop.campaigns[args.tier]:
-            idx = list(range(args.n))
+            # campaigns whose single plans take seconds (large worlds) contribute two plans
+            n_c = 2 if campaign in getattr(prop, "chunk_of", {}) else args.n
+            idx = list(range(n_c))
             a = digests(prop, args.tier, seed, idx, campaign)
             # second pass in a different order: catches state leaking between runs despite reset()
             order = list(idx)
